@@ -202,11 +202,17 @@ fn numpy_obs_json(e: &Env) -> Value {
     ])
 }
 
+/// Index 0, "trade volume (in the last step)": the last entry of the recorded per-step series once a step has run
+/// (between steps nothing trades, so the live counter must agree with it), the live counter before the first step.
+fn last_step_volume(e: &Env) -> u32 {
+    e.get_trade_vols().last().copied().unwrap_or_else(|| e.get_orderbook().get_trade_vol())
+}
+
 /// documented layout of the level-1 array (9 entries), from values read through independent getters of the live book
 fn l1_doc(e: &Env) -> Vec<u32> {
     let b = e.get_orderbook();
     vec![
-        b.get_trade_vol(),                 // 0 trade volume (in the last step)
+        last_step_volume(e),               // 0 trade volume (in the last step)
         b.bid_ask().0,                     // 1 bid touch price
         b.bid_ask().1,                     // 2 ask touch price
         b.bid_vol(),                       // 3 bid total volume
@@ -220,7 +226,7 @@ fn l1_doc(e: &Env) -> Vec<u32> {
 /// documented layout of the level-2 array (45 entries)
 fn l2_doc(e: &Env) -> Vec<u32> {
     let b = e.get_orderbook();
-    let mut v = vec![b.get_trade_vol(), b.bid_ask().0, b.bid_ask().1, b.bid_vol(), b.ask_vol()];
+    let mut v = vec![last_step_volume(e), b.bid_ask().0, b.bid_ask().1, b.bid_vol(), b.ask_vol()];
     let (bl, al) = (b.bid_levels(), b.ask_levels());
     for i in 0..10 {
         v.push(bl[i].0); // bid volume at level i
